@@ -281,7 +281,7 @@ def body_intro(cfg, q, n):
     chain = cfg
     try:
         base = Leaf(n, 0)
-        other = Leaf(n, 1)
+        others = []
         ds = base
         layers = []
         for kind in reversed(chain):
@@ -292,7 +292,8 @@ def body_intro(cfg, q, n):
             elif kind == "V":
                 ds = W2(ds)
             elif kind == "C":
-                ds = KDConcatDataset([ds, other])
+                others.append(Leaf(n, 1 + len(others)))  # every concat layer gets its own second part
+                ds = KDConcatDataset([ds, others[-1]])
             layers.append(ds)
         layers.reverse()  # outermost first
         listed = [l for l in layers if not isinstance(l, KDConcatDataset)]
@@ -323,8 +324,8 @@ def body_intro(cfg, q, n):
         ds.dispose()
         if base.disposed != 1:
             return fail("dispose does not reach the base exactly once")
-        if "C" in chain and other.disposed != 1:
-            return fail("dispose does not reach every part of a concat")
+        if any(o.disposed != 1 for o in others):
+            return fail("dispose does not reach every part of a concat exactly once")
     except Exception as e:
         return fail("exception " + type(e).__name__)
     return True
